@@ -66,7 +66,13 @@ func runStop(p stParams) func(rc *core.RunCtx) {
 		for _, sp := range all {
 			ids = append(ids, sp.FullID())
 		}
-		rc.Scen("tree (batch=%d): %s", batch, treeStr(root))
+		userCtx := g.Bool(0.3)
+		if userCtx {
+			for _, sp := range all {
+				sp.UserCtx = g.Bool(0.6)
+			}
+		}
+		rc.Scen("tree (batch=%d, userctx=%v): %s", batch, userCtx, treeStr(root))
 		// crashes only on childless actors: a restarted parent re-creates stopped
 		// children, which would blur who is "the" actor behind an id
 		crashAllowed := p.focus == "C07" && maxDepth == 0 && g.Bool(0.6)
@@ -188,6 +194,18 @@ func runStop(p stParams) func(rc *core.RunCtx) {
 		phase2 := env.tick()
 
 		// phase 2: concurrent stops, poisons, sends
+		if userCtx {
+			// the application cancels its own context at some point: that is not a
+			// stop request, and it must not loosen any shutdown guarantee
+			simrt.Go("app-cancels-its-context", func() {
+				for i := simrt.IntN(30); i > 0; i-- {
+					simrt.Yield(simrt.OpUser)
+				}
+				simrt.Fault("user-context-cancelled")
+				env.UserContext()
+				env.CancelUserContext()
+			})
+		}
 		finished := 0
 		for c := range scripts {
 			c := c
@@ -258,6 +276,9 @@ func (env *Env) watchCall(kind, by, target string) *Watch {
 
 func treeStr(sp *Spec) string {
 	s := fmt.Sprintf("%s[r=%d,in=%d]", sp.FullID(), sp.MaxRestarts, sp.InboxSize)
+	if sp.UserCtx {
+		s = fmt.Sprintf("%s[r=%d,in=%d,ctx]", sp.FullID(), sp.MaxRestarts, sp.InboxSize)
+	}
 	if len(sp.Children) > 0 {
 		var cs []string
 		for _, c := range sp.Children {
